@@ -273,7 +273,8 @@ theorem countRaw_getD (keys : List Id) (hs : keys.Pairwise (fun x y => idLe x y 
   have hF := fold_loopStep_getD keys a (offsetSpec keys a) (List.range keys.length)
     (fun i hi ht => tgt_eq_offsetSpec keys hs i a (List.mem_range.mp hi) ht) _ hlen
   have hrep : (List.replicate (A + 1) (none : Option Nat)).getD a none = none := by
-    simp [List.getD_eq_getElem?_getD]
+    have : a < A + 1 := by omega
+    simp [List.getD_eq_getElem?_getD, List.getElem?_replicate, this]
   rw [hrep] at hF
   have hh := hit_iff keys hs a
   rw [countRaw_eq]
@@ -285,10 +286,11 @@ theorem countRaw_getD (keys : List Id) (hs : keys.Pairwise (fun x y => idLe x y 
     by_cases hp : present keys a = true
     · have := hh.mpr ⟨hp, this⟩
       simp [hp, this]
-    · have hn : ¬ ((List.range keys.length).any (fun i => tgt keys i == some a) = true) :=
-        fun h => hp (hh.mp h).1
-      simp only [hn, hp]
-      simp
+    · have hn := Bool.eq_false_iff.mpr
+        (fun h : (List.range keys.length).any (fun i => tgt keys i == some a) = true =>
+          hp (hh.mp h).1)
+      have hp' := Bool.eq_false_iff.mpr hp
+      simp [hn, hp']
   | some b =>
     simp only []
     rw [getD_set, fold_loopStep_length]
@@ -303,7 +305,8 @@ theorem countRaw_getD (keys : List Id) (hs : keys.Pairwise (fun x y => idLe x y 
         (present_iff keys b).mpr ⟨0, by rw [keyAt_getElem? h00, h0]⟩
       have := lt_offsetSpec_iff keys hs b 0 (some b) (by rw [keyAt_getElem? h00, h0])
       simp [keyLt] at this
-      simp [hl, hp, this]
+      rw [if_pos ⟨rfl, hl⟩, hp, this]
+      rfl
     · have hne : ¬ (b = a ∧ b < (List.replicate (A + 1) (none : Option Nat)).length) :=
         fun h => hb h.1
       simp only [hne, if_false]
@@ -313,10 +316,11 @@ theorem countRaw_getD (keys : List Id) (hs : keys.Pairwise (fun x y => idLe x y 
       by_cases hp : present keys a = true
       · have := hh.mpr ⟨hp, h0'⟩
         simp [hp, this]
-      · have hn : ¬ ((List.range keys.length).any (fun i => tgt keys i == some a) = true) :=
-          fun h => hp (hh.mp h).1
-        simp only [hn, hp]
-        simp
+      · have hn := Bool.eq_false_iff.mpr
+          (fun h : (List.range keys.length).any (fun i => tgt keys i == some a) = true =>
+            hp (hh.mp h).1)
+        have hp' := Bool.eq_false_iff.mpr hp
+        simp [hn, hp']
 
 /-! ### the backfill loop as written -/
 
@@ -344,8 +348,8 @@ theorem backfillBody_getD (o : List (Option Nat)) (k j : Nat) (hk : k < o.length
       simp [this, hj]
   | some v =>
     by_cases hj : j = k
-    · subst hj; simp [h]
-    · simp [hj]
+    · subst hj; rw [if_pos rfl]; exact h
+    · rw [if_neg hj]
 
 theorem bfLoop_succ (m : Nat) (o : List (Option Nat)) :
     bfLoop (m + 1) o = bfLoop m (backfillBody o m) := by
@@ -402,20 +406,29 @@ theorem presentGe_of_present (keys : List Id) (a : Nat) (h : present keys a = tr
   subst this
   exact ⟨some a, hk, by simp⟩
 
+theorem absent_ne (keys : List Id) (a b : Nat) (h : present keys a = false)
+    (hb : some b ∈ keys) : b ≠ a := by
+  intro e; subst e
+  have : present keys b = true := List.any_eq_true.mpr ⟨some b, hb, by simp⟩
+  rw [h] at this; cases this
+
 theorem presentGe_succ_of_absent (keys : List Id) (a : Nat) (h : present keys a = false) :
     presentGe keys (a + 1) = presentGe keys a := by
   unfold presentGe
-  apply List.any_congr
-  intro k hk
-  cases k with
-  | none => rfl
-  | some b =>
-    have : b ≠ a := by
-      intro e; subst e
-      have : present keys b = true := List.any_eq_true.mpr ⟨some b, hk, by simp⟩
-      rw [h] at this; cases this
-    simp only [decide_eq_decide]
-    omega
+  rw [Bool.eq_iff_iff, List.any_eq_true, List.any_eq_true]
+  constructor
+  · rintro ⟨k, hk, he⟩
+    refine ⟨k, hk, ?_⟩
+    cases k with
+    | none => simp at he
+    | some b => simp only [decide_eq_true_eq] at he ⊢; omega
+  · rintro ⟨k, hk, he⟩
+    refine ⟨k, hk, ?_⟩
+    cases k with
+    | none => simp at he
+    | some b =>
+      have := absent_ne keys a b h hk
+      simp only [decide_eq_true_eq] at he ⊢; omega
 
 theorem offsetSpec_succ_of_absent (keys : List Id) (a : Nat) (h : present keys a = false) :
     offsetSpec keys (a + 1) = offsetSpec keys a := by
@@ -425,10 +438,7 @@ theorem offsetSpec_succ_of_absent (keys : List Id) (a : Nat) (h : present keys a
   cases k with
   | none => simp
   | some b =>
-    have : b ≠ a := by
-      intro e; subst e
-      have : present keys b = true := List.any_eq_true.mpr ⟨some b, hk, by simp⟩
-      rw [h] at this; cases this
+    have := absent_ne keys a b h hk
     simp only [decide_eq_true_eq]
     omega
 
